@@ -37,12 +37,16 @@ def cases_for(res, rng):
         K = big_structure(rng, 7, 9)
         cases.append((K, ('A', F.rand_ltl_path(rng, 3, max_temporal=2)), 'obj'))
     tiny = [K for n in (1, 2) for K in all_structures(n)]
-    for i in range(150 if quick else 1500):
+    # (the implementation's tableau is exponential in the temporal operators: ~0.5 s per call at 4, ~5 s at 5)
+    for i in range(60 if quick else 600):
         K = rng.choice(tiny)
         if i % 3 == 0:
-            g = (rng.choice(['and', 'or']),) + tuple(F.rand_ltl_path(rng, 1, max_temporal=1) for _ in range(rng.choice([4, 5, 6])))
+            k = rng.choice([4, 5, 6])
+            ops = [F.rand_ltl_path(rng, 1, max_temporal=1) for _ in range(3)] + [F.rand_pl(rng, 1) for _ in range(k - 3)]
+            rng.shuffle(ops)
+            g = (rng.choice(['and', 'or']),) + tuple(ops)
         else:
-            g = F.rand_ltl_path(rng, rng.choice([5, 6]), max_temporal=rng.choice([5, 6]))
+            g = F.rand_ltl_path(rng, rng.choice([5, 6]), max_temporal=4 if (quick or i % 10) else 5)
         cases.append((K, ('A', g), 'obj'))
     return cases, n_exh
 
